@@ -7,9 +7,10 @@ export RTCM_VERIF_EVIDENCE_DIR=$(mktemp -d /tmp/rtcm-seed-ev-XXXX)
 for id in $ids; do
   [ -f seeded/$id/patch.diff ] || continue
   git -C /repo checkout -q -- . ; 
-  if ! git -C /repo apply seeded/$id/patch.diff; then echo "| $id | patch does not apply | |" ; continue; fi
+  if ! git -C /repo apply /verif/seeded/$id/patch.diff; then echo "| $id | patch does not apply | |" ; continue; fi
   s=$(date +%s)
-  out=$(./check $id --tier quick 2>&1)
+  pid=$(echo $id | sed "s/[a-z]*$//")
+  out=$(./check $pid --tier quick 2>&1)
   rc=$?
   git -C /repo checkout -q -- .
   line=$(echo "$out" | grep -E "^VIOLATION|^OK|^UNDECIDED|not claimed" | head -1 | cut -c1-260)
